@@ -17,7 +17,7 @@ _SITES: Tuple[int, ...] = ()
 def install_stubs() -> None:
     import peptacular.proforma.proforma_parser as PP
     from . import restub
-    from .c16 import install_stubs as s9
+    from .c16 import install_contract_stubs as s9
     PP.AMINO_ACIDS = "".join(sorted(PP.AMINO_ACIDS))
     restub.install(PP, SF)
     s9()
